@@ -1166,6 +1166,9 @@ func callBuiltin(caller *frame, callpos token.Pos, fn *ssa.Builtin, args []value
 	case "delete": // delete(map[K]value, K)
 		switch m := args[0].(type) {
 		case *hashmap:
+			if m != nil && i.sched != nil && i.cfg.Race && i.race != nil {
+				i.race.access(caller, m, true)
+			}
 			i.mapDelete(m, caller.mapKey(args[1]))
 		default:
 			panic(fmt.Sprintf("illegal map type: %T", m))
